@@ -257,6 +257,9 @@ func (ex *Explorer) runPath(solver *Solver, it WorkItem) {
 			p.flushPending()
 		}()
 	}
+	if len(p.violations) > 0 {
+		sample = nil // a path with a counterexample is confirmed through that counterexample, not sampled as passing
+	}
 	if p.inScope {
 		solver.EndPath()
 		if err := solver.flush(); err != nil {
